@@ -76,6 +76,38 @@ func c10Cases(tier string) []Case {
 		c10Case("account-variable", nil, []string{send("%N", "{ $s @b }", "@d")}, map[string][2]string{"s": {"account", "acc:a"}}, "", ""),
 		c10Case("two-assets", []string{bal("m", "a", "EUR")}, []string{send("%N", "@a", "@d"), send("$m", "@a", "@e")}, nil, "", ""),
 	)
+	// store independence over GENERATED source shapes (the generator of the C01-C04 families):
+	// every two-leaf tree over @a, @b, @world with caps, bounded / unbounded overdraft and
+	// allotments, plus allotments whose items are @world / unbounded accounts / lists
+	// (an item that never needs a balance next to one that does)
+	{
+		o := srcOpts{world: true, unbounded: true, caps: true, allot: true}
+		gen := srcTrees(2, 1, []string{"a", "b"}, o)
+		if tier != "thorough" {
+			gen = thin(gen, 10)
+		}
+		for _, first := range []string{"@world", "@a allowing unbounded overdraft", "{ @a @world }", "@a", "max %C from @world"} {
+			seconds := []string{"{ @b @c }", "@b", "{ @b allowing overdraft up to %K @c }"}
+			if tier != "thorough" {
+				seconds = seconds[:1]
+			}
+			for _, second := range seconds {
+				gen = append(gen, "{ 1/2 from "+first+" remaining from "+second+" }", "{ 1/3 from "+second+" 2/3 from "+first+" }")
+			}
+		}
+		gen = dedupe(gen)
+		for i, src := range gen {
+			if tier == "thorough" || i%2 == 0 {
+				cases = append(cases, c10Case("generated-source-shapes/fixed", nil, []string{send("%N", src, "@d")}, nil, "", ""))
+			}
+			if (tier == "thorough" || i%2 == 1) && !strings.Contains(src, "unbounded") && !strings.Contains(src, "@world") {
+				cases = append(cases, c10Case("generated-source-shapes/send-all", nil, []string{sendAll("USD", src, "@d")}, nil, "", ""))
+			} else if tier == "thorough" || i%2 == 1 {
+				// followed by a second statement reading the same accounts again
+				cases = append(cases, c10Case("generated-source-shapes/fixed+second-statement", nil, []string{send("%N", src, "@d"), send("%N", "{ @b @c @a }", "@e")}, nil, "", ""))
+			}
+		}
+	}
 	if tier == "thorough" {
 		cases = append(cases,
 			c10Case("balance-origin x3", []string{bal("m", "a", "USD"), bal("o", "b", "USD"), bal("p", "c", "USD")}, []string{send("$m", "{ @b @c }", "@d"), send("$o", "{ @a @c }", "@e"), send("$p", "@a", "@d")}, nil, "", ""),
